@@ -141,6 +141,31 @@ func run(c *core.Case, st *core.CaseStats, seed int64) {
 		} else if bytes.IndexByte(orig, '\\') < 0 && !bytes.Equal(out, orig) {
 			rep(k+"Parse", "value", in, "backslash-free input unchanged", out)
 		}
+	case "parseimpl":
+		// the output the step-level specification of the parser (ScanParse.tla) computes for this input
+		src := toBytes(c.S)
+		exact := core.RawInt(c.A[1]) == 1
+		want := toBytes(c.Out)
+		in := map[string]interface{}{"codec": k, "input": string(src), "input_bytes": src}
+		if len(src) > 4 {
+			st.Nontrivial++
+		}
+		dst := make([]byte, len(src))
+		var n int
+		if !guard(k+"Parse", in, func() { n = cd.parse(dst, append([]byte{}, src...)) }) {
+			return
+		}
+		if n < 0 || n > len(src) {
+			rep(k+"Parse", "value", in, "at most len(input) bytes", n)
+			return
+		}
+		if !bytes.Equal(dst[:n], want) {
+			kind := "drift" // malformed input: the property leaves the exact output open
+			if exact {
+				kind = "value"
+			}
+			rep(k+"Parse", kind, in, want, dst[:n])
+		}
 	default:
 		panic("unknown fn " + c.Fn)
 	}
